@@ -552,6 +552,9 @@ def apply_rules(text, rules, log, where='', protect=()):
                 for k in sorted(vals, key=len, reverse=True):
                     new = new.replace(k, vals[k])
                 a, b = toks[i].a, toks[end - 1].b
+                if pat and pat[0] == 'for' and re.search(r'\bwhile\b', repl) and _count_ident(text[a:b], ('continue',)):
+                    # `for x in it { B }` -> `while c { x = ..; B; step }` moves the step behind B: a `continue` in B would skip it
+                    raise ScanError('rule %s: the for -> while expansion is not valid for a loop body with `continue` (%s)' % (rid, where))
                 if protect and not (rules[idx][3] or {}).get('allow'):
                     # a rewrite may move protected identifiers around but never delete one: the statements the
                     # unit is about cannot be dropped by a reduction rule
